@@ -127,7 +127,7 @@ fn gen_interp(rng: &mut Rng) -> String {
         _ => rng.unit(),
     };
     let q: f64 = if rng.chance(9, 10) { 1.0 - r } else { rng.range(-2, 6) as f64 / 4.0 };
-    let d: f64 = match rng.below(10) {
+    let d: f64 = match rng.below(12) {
         0 => 0.0,
         1 => -(rng.range(1, 9) as f64) / 2.0,
         2 => total,
@@ -135,6 +135,7 @@ fn gen_interp(rng: &mut Rng) -> String {
         4 | 5 => *rng.pick(&cums),
         6 => r * total,
         7 => total * 2.0,
+        8 => (rng.range(1, 15) as f64 / 16.0) * total,
         _ => rng.unit() * total,
     };
     let g = if is_line {
@@ -249,18 +250,23 @@ fn gen_densify(rng: &mut Rng) -> String {
         *rng.pick(&[1.0, 0.5, 3.0])
     } else {
         let l = *rng.pick(&lens);
-        // divisor classes only make sense for lengths that are exact in f64 (multiples of 1/4 here)
-        let rational = (l * 4.0).fract() == 0.0;
-        let class = if rational { rng.below(12) } else { *rng.pick(&[5u64, 6, 8, 10, 11, 11]) };
+        // divisor classes only make sense for lengths that are exact in f64 (multiples of 1/4 here);
+        // the divisor k is chosen so that l/k is exact too (otherwise d/max is a rounding near-tie)
+        let rational = (l * 4.0).fract() == 0.0 && l < 1e9;
+        let ks: Vec<i64> = (1..=9).filter(|k| rational && ((l * 64.0) as i64) % k == 0).collect();
+        let k = if ks.is_empty() { 1.0 } else { *rng.pick(&ks) as f64 };
+        let class = if rational { rng.below(16) } else { *rng.pick(&[7u64, 8, 10, 12, 13, 14, 15, 7, 12, 11]) };
         match class {
-            0 | 1 | 2 => l / rng.range(1, 8) as f64,            // an exact multiple (when the quotient is exact)
-            3 => l / rng.range(1, 8) as f64 * (1.0 + f64::EPSILON), // just above a divisor
-            4 => l / rng.range(1, 8) as f64 * (1.0 - f64::EPSILON), // just below a divisor
-            5 => shortest / rng.range(20, 60) as f64,           // far below the shortest segment
-            6 => total * 1.5,                                   // above the total length
-            7 => longest,
-            8 => *rng.pick(&[0.1, 0.3, 1.0, 2.5, 0.7]),
-            9 => total,
+            0 | 1 | 2 | 3 => l / k,                             // length an exact multiple of max
+            4 => l / k * (1.0 + f64::EPSILON),                  // just above a divisor
+            5 => l / k * (1.0 - f64::EPSILON),                  // just below a divisor
+            6 => l / rng.range(3, 7) as f64,                    // divisor rounded in f64 (often a near-tie)
+            7 => shortest / (20.0 + 40.0 * rng.unit()),         // far below the shortest segment
+            8 => total * 1.5,                                   // above the total length
+            9 => longest,
+            10 => *rng.pick(&[0.1, 0.3, 1.0, 2.5, 0.7]),
+            11 => total,
+            12 => shortest * (0.3 + rng.unit()),
             _ => rng.unit() * longest + longest / 64.0,
         }
     };
